@@ -1,6 +1,6 @@
 (* C13 -- all memory goes through the supplied manager and is fully returned.
    Statements only; proofs in Proofs/LedgerProofs.v, LedgerOps.v, LedgerBase.v, LedgerNormalize.v, LedgerTheorems.v,
-   LedgerSane.v, LedgerHistory.v.
+   LedgerSane.v, LedgerHistory.v, LedgerQuery.v.
 
    The theorems are about the memory tier of the model (Model/Mem.v, Model/ParseM.v, Model/OpsM.v), which
    mirrors the C code allocation by allocation (gen/c13.py, gen/c14.py compare full allocation traces).
@@ -16,9 +16,10 @@
    pointer it returned" fails exactly when this counter moves.
 
    Covered operations: uriParseSingleUriExMm, uriFreeUriMembersMm, uriMakeOwnerMm, uriNormalizeSyntaxExMm
-   (any mask, borrowed and owned), uriAddBaseUriExMm, uriRemoveBaseUriMm.
+   (any mask, borrowed and owned), uriAddBaseUriExMm, uriRemoveBaseUriMm, and (second part of this file; memory
+   tier Model/QueryM.v, proofs Proofs/LedgerQuery.v) uriDissectQueryMallocExMm, uriComposeQueryMallocExMm,
+   uriFreeQueryListMm.
    NOT covered here (nothing is claimed about them):
-   - uriDissectQueryMallocExMm, uriComposeQueryMallocExMm, uriFreeQueryListMm (no memory-tier model);
    - "an incomplete manager is rejected with the dedicated error code before anything is allocated": the C
      wrappers test the manager (URI_CHECK_MEMORY_MANAGER) before they call the engines modelled here, so the
      clause is outside these models; it is checked on the implementation by gen/c13.py only;
@@ -146,7 +147,9 @@ Print Assumptions C13_sane_is_kept.
    does not exist do nothing.  From the empty store and the empty ledger, under ANY fault plan and for ANY list of
    steps: the live blocks are exactly the blocks of the objects of the store ([balanced]: also every object is
    consistent with its owner flag), and no release ever hit a block that was not live.
-   [_partial]: the operations are the six covered ones; the query-list functions are not among them. *)
+   [_partial]: the operations are the six URI operations; the query-list functions are not among them.  The
+   histories over all nine manager-taking calls are C13_any_history_balanced and
+   C13_any_history_then_release_leaves_nothing in the second part of this file (they contain these steps). *)
 Theorem C13_any_history_balanced_partial : forall csize p ops,
   let st := hrun csize ops ([], ms_init p) in balanced (fst st) (snd st) /\ bad_frees (snd st) = 0.
 Proof. exact history_balanced. Qed.
@@ -222,4 +225,145 @@ Proof.
     injection E as <- <-. eexists; eexists. split; [vm_compute; reflexivity|]. split; reflexivity.
   - eexists; eexists. split; [vm_compute; reflexivity|].
     eexists; eexists. split; [vm_compute; reflexivity|]. split; reflexivity.
+Qed.
+
+(* ================================================================================================================
+   The query-list functions (memory tier: Model/QueryM.v, proofs: Proofs/LedgerQuery.v).
+   [mqlist]: a query list with, per node, the blocks of the key copy, of the value copy (absent for a NULL value)
+   and of the node; [mqlist_blocks l]: every block the list refers to; [erase_q l]: the list of the pure tier
+   (Model/Query.v).  Statements hold for every text / list, every well-formed ledger, every fault plan, both
+   character widths ([csize]) and unbounded sizes. *)
+From Coq Require Import ZArith.
+From UP Require Import Model.Escape Model.Query Model.QueryM Proofs.QueryProofs Proofs.LedgerQuery.
+
+(* uriFreeQueryListMm releases exactly the blocks of the list, each one live; no request, no bad release *)
+Theorem C13_free_query_list_releases_exactly : forall l s, wf s -> NoDup (mqlist_blocks l) -> incl (mqlist_blocks l) (live_ids s) ->
+  let s' := free_query_list_m l s in
+  wf s' /\ Permutation (live_ids s) (mqlist_blocks l ++ live_ids s') /\ bad_frees s' = bad_frees s
+  /\ ms_requests s' = ms_requests s /\ ms_plan s' = ms_plan s /\ ms_next s' = ms_next s.
+Proof. exact free_query_list_m_releases. Qed.
+Print Assumptions C13_free_query_list_releases_exactly.
+
+(* uriDissectQueryMallocExMm: on success the ledger grew by exactly the blocks of the list (pairwise distinct) and the
+   count is the length of the list; on out-of-memory the live blocks are those from before the call and none of the
+   blocks of the list the call had begun is live any more *)
+Theorem C13_dissect_balanced : forall csize pts bc t s0, wf s0 ->
+  match dissect_m csize pts bc t s0 with
+  | (DMOk items n, s') =>
+    wf s' /\ ext s0 s' /\ Permutation (live_ids s') (mqlist_blocks items ++ live_ids s0)
+    /\ NoDup (mqlist_blocks items) /\ n = Z.of_nat (length items)
+  | (DMMalloc d, s') =>
+    wf s' /\ ext s0 s' /\ Permutation (live_ids s') (live_ids s0) /\ fails_between s0 s'
+    /\ (forall b, In b (mqlist_blocks d) -> ~ In b (live_ids s'))
+  end.
+Proof. exact dissect_m_balanced. Qed.
+Print Assumptions C13_dissect_balanced.
+
+(* dissect, then the matching release: the ledger is back to what it was *)
+Theorem C13_dissect_release : forall csize pts bc t s0 items n s1, wf s0 -> dissect_m csize pts bc t s0 = (DMOk items n, s1) ->
+  let s2 := free_query_list_m items s1 in
+  wf s2 /\ Permutation (live_ids s2) (live_ids s0) /\ bad_frees s2 = bad_frees s0
+  /\ ms_requests s2 = ms_requests s1 /\ ms_plan s2 = ms_plan s0.
+Proof. exact dissect_m_release. Qed.
+Print Assumptions C13_dissect_release.
+
+(* uriComposeQueryMallocExMm: on success exactly one new block, the string, of (chars required + 1) characters, holding
+   the composed text of the pure tier, which fits; on any error the live blocks are those from before the call *)
+Theorem C13_compose_balanced : forall csize stp nb l s0, wf s0 ->
+  match compose_m csize stp nb l s0 with
+  | (CMOk out b, s') =>
+    wf s' /\ ext s0 s' /\ Permutation (live_ids s') (b :: live_ids s0) /\ ~ In b (live_ids s0)
+    /\ exists r, chars_required stp nb l = ZOk r /\ (0 <= r < INT_MAX)%Z
+         /\ In (b, (Z.to_N (r + 1) * csize)%N) (ms_live s') /\ out = query_text stp nb l /\ (Z.of_nat (length out) <= r)%Z
+  | (CMErr c, s') =>
+    wf s' /\ ext s0 s' /\ Permutation (live_ids s') (live_ids s0)
+    /\ (c = URI_ERROR_MALLOC -> fails_between s0 s' \/ (chars_required stp nb l = ZOk INT_MAX /\ s' = s0))
+    /\ (c <> URI_ERROR_MALLOC -> s' = s0 /\ chars_required stp nb l = ZErr c)
+  end.
+Proof. exact compose_m_balanced. Qed.
+Print Assumptions C13_compose_balanced.
+
+(* compose, then the caller frees the returned string (nothing to free after an error): the ledger is back *)
+Theorem C13_compose_release : forall csize stp nb l s0, wf s0 ->
+  let '(r, s1) := compose_m csize stp nb l s0 in
+  let s2 := free_string_m r s1 in
+  wf s2 /\ Permutation (live_ids s2) (live_ids s0) /\ bad_frees s2 = bad_frees s0 /\ ms_requests s2 = ms_requests s1
+  /\ ms_plan s2 = ms_plan s0.
+Proof. exact compose_m_release. Qed.
+Print Assumptions C13_compose_release.
+
+(* the memory tier computes the values of the pure tier (to which the C17 theorems apply): whenever no request is refused *)
+Theorem C13_dissect_erases_to_pure : forall csize pts bc t s,
+  ~ fails_between s (snd (dissect_m csize pts bc t s)) -> wf s -> erase_d (fst (dissect_m csize pts bc t s)) = dissect pts bc t.
+Proof. exact dissect_m_erasure. Qed.
+Print Assumptions C13_dissect_erases_to_pure.
+
+Theorem C13_dissect_ok_erases_to_pure : forall csize pts bc t s items n s',
+  dissect_m csize pts bc t s = (DMOk items n, s') -> dissect pts bc t = DOk (erase_q items) n.
+Proof. exact dissect_m_erases. Qed.
+Print Assumptions C13_dissect_ok_erases_to_pure.
+
+Theorem C13_compose_erases_to_pure : forall csize stp nb l s cm, (INT_MAX <= cm)%Z ->
+  ~ fails_between s (snd (compose_m csize stp nb l s)) -> wf s ->
+  erase_c (fst (compose_m csize stp nb l s)) = compose_malloc cm stp nb l.
+Proof. exact compose_m_erasure. Qed.
+Print Assumptions C13_compose_erases_to_pure.
+
+(* ---- arbitrary histories over all nine manager-taking calls.  A store of URI objects, query lists and strings and one
+   ledger; [qstep] (Proofs/LedgerQuery.v) applies one of: any step of [hstep] on the URI objects (parse, normalize,
+   make owner, add base, remove base, free members), dissect a text (a new list when the call succeeds; after a failure
+   the caller does not use *dest), compose list i (a new string when the call succeeds), uriFreeQueryListMm on list i
+   (the slot is then empty), the caller freeing string i.  From the empty store and the empty ledger, under ANY fault
+   plan and for ANY list of steps: the live blocks are exactly the blocks of the URI objects, of the lists and of the
+   strings of the store, and no release ever hit a block that was not live.  These two theorems supersede
+   C13_any_history_balanced_partial and C13_any_history_then_release_leaves_nothing_partial above. *)
+Theorem C13_any_history_balanced : forall csize p ops,
+  qbalanced (qrun csize ops (q_init p)) /\ bad_frees (q_mem (qrun csize ops (q_init p))) = 0.
+Proof. exact qhistory_balanced. Qed.
+Print Assumptions C13_any_history_balanced.
+
+Theorem C13_qbalanced_meaning : forall st, qbalanced st <->
+  (wf (q_mem st) /\ Forall (fun m => consistent m /\ sane m) (q_uris st)
+   /\ Permutation (live_ids (q_mem st))
+        (flat_map muri_blocks (q_uris st) ++ flat_map mqlist_blocks (q_lists st) ++ flat_map blk_list (q_strs st))).
+Proof. exact qbalanced_meaning. Qed.
+Print Assumptions C13_qbalanced_meaning.
+
+(* ... and once everything the store holds has been released (free members on every URI object, free query list on
+   every list, free on every string), nothing is outstanding *)
+Theorem C13_any_history_then_release_leaves_nothing : forall csize p ops,
+  let st := qrun csize ops (q_init p) in
+  let st' := qrun csize (qfree_all (length (q_uris st)) (length (q_lists st)) (length (q_strs st))) st in
+  ms_live (q_mem st') = [] /\ bad_frees (q_mem st') = 0.
+Proof. exact qhistory_then_release_leaves_nothing. Qed.
+Print Assumptions C13_any_history_then_release_leaves_nothing.
+
+(* one shape spelled out: dissect, compose the list, free the string, free the list *)
+Theorem C13_history_dissect_compose_free : forall csize p pts bc stp nb t,
+  match dissect_m csize pts bc t (ms_init p) with
+  | (DMOk items n, s1) =>
+    let '(r, s2) := compose_m csize stp nb (erase_q items) s1 in
+    let s3 := free_string_m r s2 in
+    let s4 := free_query_list_m items s3 in
+    ms_live s4 = [] /\ bad_frees s4 = 0
+  | (DMMalloc _, s1) => ms_live s1 = [] /\ bad_frees s1 = 0
+  end.
+Proof. exact history_dissect_compose_free. Qed.
+Print Assumptions C13_history_dissect_compose_free.
+
+(* not vacuous: "a=b&c" (wide characters) gives two items in five blocks (24, 8, 8, 24, 8 bytes); composing them takes
+   one block of 21 * 4 bytes (chars required 20: six per character with break normalisation, plus '=' and '&'; the text is "a=b&c"); a history that parses, dissects, composes and releases *)
+Example C13_query_nonvacuous :
+  let t := [97; 61; 98; 38; 99]%N in
+  (exists items s1, dissect_m 4 true BrDontTouch t (ms_init NoFault) = (DMOk items 2%Z, s1)
+     /\ erase_q items = [([97%N], Some [98%N]); ([99%N], None)] /\ map snd (ms_live s1) = [8; 24; 8; 8; 24]%N
+     /\ exists b s2, compose_m 4 true true (erase_q items) s1 = (CMOk t b, s2) /\ map snd (ms_live s2) = [84; 8; 24; 8; 8; 24]%N)
+  /\ (let st := qrun 1 [QUri (HParse [115; 58; 47; 97; 63; 120]%N); QDissect true BrDontTouch t; QCompose true true 0; QFreeList 0]
+                     (q_init (FailOnce 9)) in
+      length (q_uris st) = 1 /\ q_lists st = [[]] /\ length (q_strs st) = 1 /\ length (ms_live (q_mem st)) = 2).
+Proof.
+  cbv zeta. split.
+  - eexists; eexists. split; [vm_compute; reflexivity|]. split; [reflexivity|]. split; [reflexivity|].
+    eexists; eexists. split; [vm_compute; reflexivity|reflexivity].
+  - vm_compute. repeat split.
 Qed.
